@@ -63,7 +63,17 @@ for k in ks:
     if CHECK_ONLY and prev.get("demo_fails_with_patch") and prev.get("demo_passes_without_patch") and prev.get("existing_tests_pass_with_patch", True):
         res = {kk: prev[kk] for kk in ("demo_passes_without_patch", "demo_fails_with_patch", "existing_tests_pass_with_patch") if kk in prev}
         res["note"] = "confirmation from the first run (on the /repo commit the change was written against); this run only re-ran the check at /repo HEAD"
-    if "note" in res:
+    adapted = f"/verif/seeded/{pid}-{k}/patch-with-hook-adapted.diff"
+    if "note" in res and os.path.exists(adapted):
+        # the change renames something a cfg(scylla_verif) hook names: the judged tree is the change
+        # plus the hook lines adapted to it (nothing else), recorded next to patch.diff
+        rc, o = sh(f"git apply {adapted} || git apply --3way {adapted}")
+        res["hook_adapted"] = "checked with patch-with-hook-adapted.diff (patch.diff + the cfg(scylla_verif) hook lines adapted to the renamed item)"
+        if rc != 0:
+            print(f"{pid}-{k}: adapted patch does not apply on /repo HEAD: {o[-300:]}", flush=True)
+            clean()
+            continue
+    elif "note" in res:
         rc, o = sh(f"git apply {out}/patch.diff || git apply --3way {out}/patch.diff")
         if rc != 0:
             print(f"{pid}-{k}: patch.diff does not apply on /repo HEAD: {o[-300:]}", flush=True)
